@@ -294,6 +294,7 @@ class DocutilsRenderer(RendererProtocol):
         :param inline: whether the text is inline or block
         :param temp_root_node: If set, allow sections to be created as children of this node
         :param heading_offset: offset heading levels by this amount
+            (in addition to the offset already in force)
         """
         tokens = (
             self.md.parseInline(text, self.md_env)
@@ -313,7 +314,9 @@ class DocutilsRenderer(RendererProtocol):
         @contextmanager
         def _restore():
             current_heading_offset = self._heading_offset
-            self._heading_offset = heading_offset
+            # offsets accumulate: content nested in an already offset (included) document
+            # keeps that offset, and an inner ``heading-offset`` is added to it
+            self._heading_offset = current_heading_offset + heading_offset
             if temp_root_node is not None:
                 # we need to temporarily set the root node,
                 # and we also want to restore the level_to_section mapping at the end
